@@ -120,7 +120,7 @@ void harness(void)
             VF_COVER(c >= 0 && c != EAV_RFC_6531 && asked == EAV_RFC_6531, "enter-6531");
         } else {
             VF_ASSERT(s == EEAV_INVALID_RFC, "C15: eav_setup fails with EEAV_INVALID_RFC otherwise");
-            VF_ASSERT(eav_errstr(&e) == cb_msg_of(EEAV_INVALID_RFC), "C15: ... and eav_errstr reports it, from any reachable state");
+            VF_ASSERT(CB_SAME_MSG(eav_errstr(&e), cb_msg_of(EEAV_INVALID_RFC)), "C15: ... and eav_errstr reports it, from any reachable state");
             VF_COVER(c == EAV_RFC_6531, "failed-setup-in-6531");
         }
         VF_ASSERT(e.result == old, "eav_setup does not touch the result record");
@@ -150,7 +150,7 @@ void harness(void)
     case OP_ERRSTR: {
         const char *m = eav_errstr(&e);
         if (prev_err == EEAV_IDN_ERROR) VF_ASSERT(CB_IS_IDN_MESSAGE(m), "C13: eav_errstr keeps describing the recorded IDN failure");
-        else VF_ASSERT(m == cb_msg_of(prev_err), "C13: eav_errstr is the message of the recorded code");
+        else VF_ASSERT(CB_SAME_MSG(m, cb_msg_of(prev_err)), "C13: eav_errstr is the message of the recorded code");
         VF_ASSERT(m != NULL && m[0] != 0, "C15: never an empty message");
     } break;
     case OP_FREE_INIT:
